@@ -136,6 +136,11 @@ func (obj *Instance) Init(scope *slip.Scope, args slip.List, depth int) {
 				break
 			}
 			initable = f2.initable[key]
+			if !initable && len(f2.initable) == 0 {
+				// A component without a declaration accepts all of its
+				// variables, it keeps doing so as a component.
+				_, initable = f2.defaultVars[key[1:]]
+			}
 		}
 		if initable {
 			vkey := key[1:]
